@@ -53,6 +53,8 @@ LAX_TABLE = [
     ("int", (("multiple_of", "Lax(3)"),)), ("float", (("multiple_of", "Lax(0.5)"),)), ("Decimal", (("multiple_of", "Lax(2)"),)),
     ("int", (("multiple_of", "Lax(10)"),)),
     ("int", (("const", "Lax(1)"),)), ("str", (("const", "Lax('a')"),)), ("int", (("enum", "Lax([1, 2, 3])"),)),
+    # a lax bound of another numeric type than the origin
+    ("int", (("le", "Lax(10.5)"),)), ("int", (("ge", "Lax(0.5)"),)), ("float", (("le", "Lax(10)"),)), ("Decimal", (("ge", "Lax(0)"),)),
     # untyped rules: the lax constant replaces every input, also one that is equal to it but of another type
     (None, (("const", "Lax(1)"),)), (None, (("const", "Lax(0)"),)), (None, (("const", "Lax(True)"),)),
     (None, (("const", "Lax('red')"),)), (None, (("enum", "Lax([1, 'a'])"),)),
